@@ -1,9 +1,76 @@
+import SwayVerif.Model.SwaySem
 import SwayVerif.Driver.Util
-/-! Driver for C02 (stub — replace `answer`; keep `run`). -/
-namespace SwayVerif.Driver.C02
-open SwayVerif.Driver
+import SwayVerif.Driver.SwayParse
+/-!
+Driver for C02. Consumes the case lines of `sv_c01`:
+`<kind> <sexp> ;; <class> debug=<obs> release=<obs>` (kind `prog`/`prog-oob`) and `e2e <name> <expected> ;; …`.
 
-def answer (_line : String) : String := "unimplemented agree=0 prop=0"
+`prop` = the debug and the release build have the same observable outcome: same revert/non-revert status and the
+same logged payloads in the same order (for `e2e`: the same returned value / data / revert code). Gas, code size
+and metadata are not part of the observation. No model is needed for the comparison.
+`agree` = additionally the same revert code.
+`nobytecode` lines (the compiler produced no bytecode in one of the profiles) are skipped: C02 speaks about the
+behaviour of the two builds.
+
+Only to *classify* a difference the reference semantics is consulted:
+`why=dyn-oob-garbage` — both builds returned normally and agree on every payload the semantics prescribes before an
+out-of-bounds dynamic index (where it prescribes a revert); they differ only in the payload read out of bounds.
+`why=dead-trap-eliminated` — each build behaves like a run of the semantics in which some trapping instructions
+whose results are unused were deleted (`SwaySem.runSkip`), but not the same ones.
+-/
+namespace SwayVerif.Driver.C02
+open SwayVerif.Driver SwayVerif.SwaySem SwayVerif.Driver.SwayParse
+
+/-- `o` is the behaviour of the run of the semantics in which the first `k` unused trapping operations were
+deleted (`k = 0`: the prescriptive run); an out-of-bounds dynamic index at the very end may have returned one
+garbage payload instead of reverting -/
+def explainedBy (p : Prog) (k : Nat) (o : Obs) : Bool :=
+  match runSkip p FUEL k with
+  | .ok l => !o.reverted && decide (o.logs = l)
+  | .revert _ l => o.reverted && decide (o.logs = l)
+  | .oob l => (o.reverted && decide (o.logs = l)) ||
+      (!o.reverted && decide (o.logs.take l.length = l) && o.logs.length = l.length + 1)
+  | _ => false
+
+def classify (_kind : String) (rest : List String) (d r : Obs) : String :=
+  match parseProg rest with
+  | none => "differ"
+  | some p =>
+    if explainedBy p 0 d && explainedBy p 0 r then
+      (match run p FUEL with | .oob _ => "dyn-oob-garbage" | _ => "differ")
+    else if (List.range 9).any (explainedBy p · d) && (List.range 9).any (explainedBy p · r) then "dead-trap-eliminated"
+    else "differ"
+
+def answerProg (kind : String) (rest : List String) (itoks : List String) : String :=
+  match kvLookup "debug" itoks, kvLookup "release" itoks with
+  | some ds, some rs =>
+    match parseObs? ds, parseObs? rs with
+    | some d, some r =>
+      let prop := d.reverted == r.reverted && decide (d.logs = r.logs)
+      let agree := prop && d.code == r.code
+      let st := if d.reverted then "revert" else "ok"
+      let why := if prop then "" else s!" why={classify kind rest d r}"
+      s!"{st} agree={b01 agree} prop={b01 prop} skip=0 kind={kind} dbg={st} samecode={b01 (d.code == r.code)}{why}"
+    | _, _ => s!"nobytecode agree=1 prop=1 skip=1 kind={kind} why=no-bytecode"
+  | _, _ => "bad-impl agree=0 prop=1 why=bad-impl"
+
+def answerE2e (itoks : List String) : String :=
+  match kvLookup "debug" itoks, kvLookup "release" itoks with
+  | some d, some r =>
+    if d.startsWith "builderr" || r.startsWith "builderr" then "nobytecode agree=1 prop=1 skip=1 kind=e2e why=no-bytecode"
+    else s!"{d} agree={b01 (d = r)} prop={b01 (d = r)} skip=0 kind=e2e"
+  | _, _ => "bad-impl agree=0 prop=1 why=bad-impl"
+
+def answer (line : String) : String :=
+  match line.splitOn " ;; " with
+  | [c, i] =>
+    let itoks := tokens i
+    match tokenize c with
+    | "prog" :: rest => answerProg "prog" rest itoks
+    | "prog-oob" :: rest => answerProg "prog-oob" rest itoks
+    | "e2e" :: _ => answerE2e itoks
+    | _ => "bad-case agree=0 prop=1 why=bad-case"
+  | _ => "bad-line agree=0 prop=1 why=bad-line"
 
 def run : IO Unit := do
   lineLoop (← IO.getStdin) (← IO.getStdout) answer
